@@ -86,6 +86,24 @@ def cutout (p : Params) : Option (Nat × Nat × Nat × Nat) :=
   if mx p = p.nx ∧ my p = p.ny then none
   else some (cutStart (my p) p.ny, cutStart (my p) p.ny + p.ny, cutStart (mx p) p.nx, cutStart (mx p) p.nx + p.nx)
 
+/-- Internal index (one axis) of input index `i`: `internal[start + i] = input[i]`, `start = cutStart M N`.
+This is the map the slice `start : start+N` of `FourierFilter.cutout` realises; with nothing padded
+(`M = N`) `start = 0` and it is the identity (the code then skips the copy altogether). -/
+def embAxis (M N i : Nat) : Nat := cutStart M N + i
+
+/-- Internal row of input row `iy` / internal column of input column `ix`. -/
+def embY (p : Params) (iy : Nat) : Nat := embAxis (my p) p.ny iy
+def embX (p : Params) (ix : Nat) : Nat := embAxis (mx p) p.nx ix
+
+/-- The complete cut-out as the driver prints it: internal rows of input rows `0 … ny-1`, internal columns
+of input columns `0 … nx-1` (the embedding is the product of the two). -/
+def embRows (p : Params) : List Nat := (List.range p.ny).map (embY p)
+def embCols (p : Params) : List Nat := (List.range p.nx).map (embX p)
+
+/-- What the driver (and hcipy's constructors) insist on: a non-empty grid and padding factors `≥ 1`. -/
+def padOK (p : Params) : Bool :=
+  decide (0 < p.nx) && decide (0 < p.ny) && decide (1 ≤ effQx p) && decide (1 ≤ effQy p)
+
 /-- Spacing of the internal frequency grid in cycles per unit: `1/(δ M)` (`Δk = 2π` times this). -/
 def nuDelta (δ : Rat) (M : Nat) : Rat := 1 / (δ * (M : Rat))
 
@@ -112,6 +130,10 @@ def frac (q : Rat) : Rat := q - (q.floor : Rat)
 def subFreqs (p : Params) (ix iy : Nat) : List (Rat × Rat) :=
   (dithers p.sy).flatMap fun dy => (dithers p.sx).map fun dx =>
     (nu p.dx (mx p) ix dx, nu p.dy (my p) iy dy)
+
+/-- `np.fft.ifftshift` along one axis of length `M`: `ifftshift(a)[q] = a[(q + ⌊M/2⌋) mod M]` — the centred index
+whose transfer-function sample multiplies FFT bin `q`. -/
+def ifftshiftIdx (M q : Nat) : Nat := (q + M / 2) % M
 
 /-- Fresnel: phases (turns mod 1) of the sub-samples whose mean is the transfer function at `(ix,iy)`. -/
 def fresnelSubTurns (p : Params) (ix iy : Nat) : List Rat :=
@@ -174,6 +196,63 @@ def minRadicand (p : Params) : Rat :=
 
 /-- No evanescent wave is sampled (`k_z` real everywhere). -/
 def noEvanescent (p : Params) : Bool := decide (0 ≤ minRadicand p)
+
+/-! ### Stokes-`I` intensity of a Jones-matrix wavefront with an input Stokes vector
+
+`Wavefront.I` (hcipy/optics/wavefront.py l.121-139), written exactly as the code writes it, for the Jones
+matrix `(x y; z w)` (real and imaginary parts separately) and the Stokes vector `(a, b, c, d)`; polymorphic in
+the scalar so that the driver runs it at `Rat` and `stokes_power_nonincreasing` is about it at `ℝ`. -/
+
+def stokesI {K : Type} [Add K] [Sub K] [Mul K] [Neg K] [Div K] [OfNat K 2]
+    (a b c d xr xi yr yi zr zi wr wi : K) : K :=
+  let m11 := (xr * xr + xi * xi) + (yr * yr + yi * yi) + (zr * zr + zi * zi) + (wr * wr + wi * wi)
+  let m12 := (xr * xr + xi * xi) - (yr * yr + yi * yi) + (zr * zr + zi * zi) - (wr * wr + wi * wi)
+  let m13 := 2 * (xr * yr + xi * yi + zr * wr + zi * wi)
+  let m14 := 2 * (-xr * yi + xi * yr - zr * wi + zi * wr)
+  (m11 * a + m12 * b + m13 * c + m14 * d) / 2
+
+/-- The Stokes vectors for which `I` is a positive semi-definite form (degree of polarisation `≤ 1`). -/
+def stokesPhysical (a b c d : Rat) : Bool := decide (0 ≤ a) && decide (b * b + c * c + d * d ≤ a * a)
+
+/-! ### matrix-valued transfer function (`FourierFilter` with a tensor transfer function)
+
+`FourierFilter._operation` (fourier_operations.py l.127-139): when the transfer function is a matrix field the
+point-wise product is `field_dot(tf, f)` — at every internal sample the matrix `D` times the vector (or matrix)
+of field components — and the adjoint uses `field_conjugate_transpose(tf)`.  Polymorphic in the scalar: the
+driver runs it on Gaussian rationals, `filterM_adjoint` is about it at `ℂ`. -/
+
+/-- `Σ_{j<n} f j`. -/
+def sumFin {K : Type} [Add K] [Zero K] (n : Nat) (f : Fin n → K) : K := ((List.finRange n).map f).sum
+
+/-- `field_dot(D, v)` at one sample: matrix times vector. -/
+def matVec {K : Type} [Add K] [Mul K] [Zero K] {n : Nat} (D : Fin n → Fin n → K) (v : Fin n → K) : Fin n → K :=
+  fun i => sumFin n fun j => D i j * v j
+
+/-- `field_conjugate_transpose(D)` at one sample (`cj` = complex conjugation of the scalar). -/
+def conjT {K : Type} {n : Nat} (cj : K → K) (D : Fin n → Fin n → K) : Fin n → Fin n → K :=
+  fun i j => cj (D j i)
+
+/-- Gaussian rationals: the exact complex numbers the driver computes with. -/
+structure GRat where
+  re : Rat
+  im : Rat
+deriving Repr, DecidableEq
+
+instance : Add GRat := ⟨fun a b => ⟨a.re + b.re, a.im + b.im⟩⟩
+instance : Mul GRat := ⟨fun a b => ⟨a.re * b.re - a.im * b.im, a.re * b.im + a.im * b.re⟩⟩
+instance : Zero GRat := ⟨⟨0, 0⟩⟩
+def GRat.conj (a : GRat) : GRat := ⟨a.re, -a.im⟩
+
+/-- Row-major list of `n²` entries as a matrix, list of `n` entries as a vector (`0` beyond the end). -/
+def matOfList (n : Nat) (l : List GRat) : Fin n → Fin n → GRat := fun i j => l.getD (i.val * n + j.val) 0
+def vecOfList (n : Nat) (l : List GRat) : Fin n → GRat := fun i => l.getD i.val 0
+def listOfVec {n : Nat} (v : Fin n → GRat) : List GRat := (List.finRange n).map v
+
+/-- `field_dot(D, v)` (`adjoint = false`) or `field_dot(field_conjugate_transpose(D), v)` (`adjoint = true`)
+at one sample, entries as lists. -/
+def mdot (n : Nat) (adjoint : Bool) (D v : List GRat) : List GRat :=
+  let Dm := matOfList n D
+  listOfVec (matVec (if adjoint then conjT GRat.conj Dm else Dm) (vecOfList n v))
 
 /-! ### One propagator object used repeatedly: the setters between calls
 
